@@ -170,6 +170,7 @@ fn budget(p: &Profile, tier: Tier) -> (u32, u32) {
 
 /// Judge one scenario on one schedule. Returns Err(message) for a violation that is not a listed
 /// known finding.
+#[allow(clippy::too_many_arguments)]
 fn judge_all(
     p: &Profile,
     scn: &Arc<Scenario>,
@@ -178,9 +179,10 @@ fn judge_all(
     known: &[(String, String)],
     counting: bool,
     abort: &Mutex<Option<String>>,
+    borrowed: Option<&'static str>,
 ) -> Result<(), (Sched, String)> {
     let mut res = Ok(());
-    execute_many(scn, scheds, &mut |sched, h| match judge(p, scn, sched, h, stats, known, counting, abort) {
+    execute_many(scn, scheds, &mut |sched, h| match judge(p, scn, sched, h, stats, known, counting, abort, borrowed) {
         Ok(()) => abort.lock().unwrap().is_some(),
         Err(m) => {
             res = Err((sched.clone(), m));
@@ -200,10 +202,22 @@ fn judge(
     known: &[(String, String)],
     counting: bool,
     abort: &Mutex<Option<String>>,
+    borrowed: Option<&'static str>,
 ) -> Result<(), String> {
     let mut st = stats.lock().unwrap();
     if counting && !st.failed {
         st.evaluations += 1;
+        if let Some(b) = borrowed {
+            *st.classes.entry(format!("generator-borrowed-from-{}", b)).or_default() += 1;
+        }
+    }
+    // Scenarios from a borrowed generator are judged by this property's oracle over the history
+    // only: a deadlock / hang there belongs to the lending property (and may be one of its known
+    // findings), so the case is set aside.
+    if borrowed.is_some() && !matches!(h.end, End::Completed) {
+        st.inconclusive += 1;
+        *st.inconclusive_why.entry("borrowed-scenario-did-not-complete".into()).or_default() += 1;
+        return Ok(());
     }
     match &h.end {
         End::Completed => {}
@@ -345,7 +359,7 @@ pub fn run_profile(p: &'static Profile, cfg: &RunCfg) -> Report {
                 }
                 let scn = Arc::new((spec.make)(i));
                 stats.lock().unwrap().cases += 1;
-                if let Err((sched, m)) = judge_all(p, &scn, &schedules_for(&scn, scheds.min(8)), &stats, &known, true, &abort) {
+                if let Err((sched, m)) = judge_all(p, &scn, &schedules_for(&scn, scheds.min(8)), &stats, &known, true, &abort, None) {
                     stats.lock().unwrap().failed = true;
                     failures.lock().unwrap().push(Failure { scn: (*scn).clone(), sched, msg: m });
                 }
@@ -386,14 +400,35 @@ pub fn run_profile(p: &'static Profile, cfg: &RunCfg) -> Report {
                     if abort.lock().unwrap().is_some() || (!in_shrink && claimed.load(std::sync::atomic::Ordering::SeqCst)) {
                         return Ok(());
                     }
-                    let scn = Arc::new((p.build)(&raw, tier, rt::SCHED));
+                    // a quarter of the cases use the generator of another property (same oracle)
+                    let lender: Option<&'static Profile> = if !p.borrow.is_empty() && raw.alt % 4 == 0 {
+                        crate::props::by_id(p.borrow[(raw.alt as usize / 4) % p.borrow.len()])
+                    } else {
+                        None
+                    };
+                    let borrowed = lender.map(|l| l.id);
+                    let scn = match lender {
+                        Some(l) => {
+                            let mut s = (l.build)(&raw, tier, rt::SCHED);
+                            // make sure every store is stopped and then read (state, metrics) at the end
+                            for ix in 0..s.stores.len() {
+                                s.epilogue.push(Op::Stop { store: ix, via_trait: false });
+                            }
+                            for ix in 0..s.stores.len() {
+                                s.epilogue.push(Op::GetState { store: ix });
+                                s.epilogue.push(Op::GetMetrics { store: ix });
+                            }
+                            Arc::new(s)
+                        }
+                        None => Arc::new((p.build)(&raw, tier, rt::SCHED)),
+                    };
                     if !in_shrink {
                         stats.lock().unwrap().cases += 1;
                     }
                     // R: a candidate during shrinking counts as failing if any of 5 runs fails
                     let attempts = if !rt::SCHED && in_shrink { 5 } else { 1 };
                     for _ in 0..attempts {
-                        if let Err((sched, m)) = judge_all(p, &scn, &schedules_for(&scn, scheds), &stats, &known, !in_shrink, &abort) {
+                        if let Err((sched, m)) = judge_all(p, &scn, &schedules_for(&scn, scheds), &stats, &known, !in_shrink, &abort, borrowed) {
                             if !in_shrink && claimed.swap(true, std::sync::atomic::Ordering::SeqCst) {
                                 return Ok(());
                             }
@@ -447,7 +482,7 @@ pub fn replay(p: &'static Profile, r: &Replay) -> Option<String> {
     let attempts = if rt::SCHED { 1 } else { 200 };
     for _ in 0..attempts {
         let sched = if rt::SCHED { r.sched.clone() } else { Sched::Os };
-        if let Err((_, m)) = judge_all(p, &scn, std::slice::from_ref(&sched), &stats, &known, false, &abort) {
+        if let Err((_, m)) = judge_all(p, &scn, std::slice::from_ref(&sched), &stats, &known, false, &abort, None) {
             return Some(m);
         }
         if let Some(a) = abort.lock().unwrap().clone() {
